@@ -89,6 +89,8 @@ class Contract:
     # names -------------------------------------------------------------------
     @classmethod
     def cname(cls):
+        if cls.module is None:
+            return "lemma." + cls.__name__
         return "%s.%s" % (cls.module.replace("fontTools.", ""), cls.qualname)
 
 
@@ -387,14 +389,15 @@ def verify(c: Contract, variant=None, deadline_s=600):
             obs[n] = Obligation(n, kind)
         return obs[n]
 
-    info = {"contract": vname, "function": loader.function_info(c.module, c.qualname), "paths": 0,
+    is_lemma = c.module is None
+    info = {"contract": vname, "function": {"lemma": True} if is_lemma else loader.function_info(c.module, c.qualname), "paths": 0,
             "normal_paths": 0, "exceptional_paths": 0, "front_end": "N+cut" if c.cuts else ("N+rebind" if c.rebind else "N")}
     if info["function"] is None:
         o = ob("target", "guard")
         _merge(o, "undecided", "target function %s.%s not found in the working tree" % (c.module, c.qualname))
         return list(obs.values()), info
     try:
-        mod, f = load_target(c)
+        mod, f = (None, None) if is_lemma else load_target(c)
     except Exception as e:
         o = ob("target", "guard")
         _merge(o, "undecided", "cannot load target: %s: %s" % (type(e).__name__, str(e)[:200]))
@@ -453,7 +456,8 @@ def verify(c: Contract, variant=None, deadline_s=600):
     reach.paths = len(outcomes)
     if not outcomes:
         _merge(reach, "undecided", "precondition unsatisfiable: no feasible path (vacuous)")
-    elif not normal and not c.expect_exceptional_only:
+    elif not normal and not (c.expect_exceptional_only is True or
+                             (isinstance(c.expect_exceptional_only, (tuple, set, list)) and variant in c.expect_exceptional_only)):
         _merge(reach, "undecided", "no normal return is reachable (vacuous postconditions)")
 
     # stringified results ------------------------------------------------------
@@ -558,29 +562,41 @@ def verify(c: Contract, variant=None, deadline_s=600):
 # native replay of a counter-model
 
 
+def _safe_repr(v):
+    try:
+        return repr(v)[:300]
+    except Exception:
+        try:
+            return repr(getattr(v, "__dict__", None) or [x for x in v])[:300]
+        except Exception:
+            return "<%s>" % type(v).__name__
+
+
 def replay(c: Contract, variant, o: Obligation, as_float=False):
     """Run the REAL function (normal import from /repo/Lib) on the model's values and
     evaluate the failed clause in CPython.  Returns dict(reproduced=bool, ...)."""
     if o.model is None:
         return {"reproduced": False, "why": "no model available (second-opinion solver)"}
     try:
-        f = loader.real(c.module, c.qualname)
-        if c.unwrap:
-            f = loader.unwrap(f)
+        f = None
+        if c.module is not None:
+            f = loader.real(c.module, c.qualname)
+            if c.unwrap:
+                f = loader.unwrap(f)
         S = ConcreteFactory(o.model, as_float=as_float)
         a = _args_namespace(c.args(S, variant))
         pre = c.requires(a)
         if not pre:
             return {"reproduced": False, "why": "model violates the precondition natively"}
         old = copy.deepcopy(a)
-        shown = {k: repr(v)[:200] for k, v in old.__dict__.items()}
+        shown = {k: _safe_repr(v) for k, v in old.__dict__.items()}
         try:
             r = c.call(f, a)
             kind = "ret"
         except Exception as e:
             r, kind = e, "exc"
         suffix = o.name.split("/")[-1]
-        res = {"inputs": shown, "outcome": ("returned %r" % (r,))[:300] if kind == "ret" else "raised %s: %s" % (type(r).__name__, str(r)[:200])}
+        res = {"inputs": shown, "outcome": ("returned " + _safe_repr(r)) if kind == "ret" else "raised %s: %s" % (type(r).__name__, str(r)[:200])}
         if suffix.startswith("post:"):
             cl = o.clause
             if kind != "ret":
